@@ -117,6 +117,32 @@ def gen_ui(rng, for_ac=False, allow_multi=True):
     else:
         if rng.random() < 0.4:
             items.append(gen_subitem(rng, "uid_ac"))
+    if rng.random() < 0.2:
+        # one field whose length needs the high-order byte of its 2-byte length (the user-information item itself stays < 64 KiB)
+        n = rng.choice([255, 256, 257, 511, 512, 513, 1000, 4096, 30000, rng.randint(256, 40000)])
+        big = bytes(rng.getrandbits(8) for _ in range(min(n, 64))) * (n // 64 + 1)
+        big = big[:n]
+        kinds = ["sopext", "uid_ac"] if for_ac else ["sopext", "uid_rq-prim", "uid_rq-sec"]
+        kind = rng.choice(kinds)
+        if kind == "sopext":
+            it = next((i for i in items if i["k"] == "sopext"), None)
+            if it is None:
+                it = gen_subitem(rng, "sopext"); items.append(it)
+            it["info"] = big.hex()
+        elif kind == "uid_ac":
+            it = next((i for i in items if i["k"] == "uid_ac"), None)
+            if it is None:
+                it = gen_subitem(rng, "uid_ac"); items.append(it)
+            it["resp"] = big.hex()
+        else:
+            it = next((i for i in items if i["k"] == "uid_rq"), None)
+            if it is None:
+                it = gen_subitem(rng, "uid_rq"); items.append(it)
+            if kind == "uid_rq-prim":
+                it["prim"] = big.hex()
+            else:
+                it["utype"] = 2
+                it["sec"] = big.hex()
     return items
 
 
